@@ -247,8 +247,10 @@ func Walk(ctx context.Context, fileSystem fs.FS, prefix, delimiter, marker strin
 		return skipflag
 	})
 	if err != nil {
-		// suppress file not found caused by user's prefix
-		if errors.Is(err, fs.ErrNotExist) || errors.Is(err, syscall.ENOTDIR) {
+		// suppress file not found caused by user's prefix, and a prefix
+		// that is no path at all ("//", "/a/", "a//b"): no key begins so
+		if errors.Is(err, fs.ErrNotExist) || errors.Is(err, syscall.ENOTDIR) ||
+			(errors.Is(err, fs.ErrInvalid) && !fs.ValidPath(root)) {
 			return WalkResults{}, nil
 		}
 		return WalkResults{}, err
